@@ -1,12 +1,15 @@
 #!/bin/bash
-# lib/mut.sh <patch-file|-e 'sed-expr' file> -- <check id> [tier]
+# lib/mut.sh <patch-file | -e 'sed-expr' file | -r fix-commit-to-revert> -- <check id> [tier]
 # Run a check against a scratch copy of /repo's working tree with a change applied.
 set -u
 M=/tmp/ufw-mut.$$
 mkdir -p $M
 trap 'rm -rf $M /verif/build/*-mut$$' EXIT
 (cd /repo && tar cf - --exclude=_build --exclude=.git . ) | tar xf - -C $M
-if [ "$1" = "-e" ]; then
+if [ "$1" = "-r" ]; then
+  (cd /repo && git show "$2") | (cd $M && patch -R -p1 -s) || exit 3
+  shift 2
+elif [ "$1" = "-e" ]; then
   sed -i -e "$2" "$M/$3" || exit 3
   (cd /repo && diff -u "$3" "$M/$3" | head -20)
   shift 3
